@@ -88,7 +88,7 @@ class HistoryRun:
         self.sup = stats
 
 
-def run_history_check(prop, tier, mode, runs, cat, budget_s, design_ref, assumptions, level="exploration", extra="", c07=False):
+def run_history_check(prop, tier, mode, runs, cat, budget_s, design_ref, assumptions, level="exploration", extra="", c07=False, extra_cov=None, extra_exit=0):
     t0 = time.time()
     budget = Budget(budget_s)
     seed = base_seed(tier)
@@ -297,7 +297,14 @@ def run_history_check(prop, tier, mode, runs, cat, budget_s, design_ref, assumpt
                               "unsupported_calls_issued": agg["stats"].get("unsupported_calls", 0)}
         cov["exhaustive"] = False
         cov["exhaustive_note"] = "tags 0..1023, known-tag neighbours and the loader x image matrix are enumerated completely once per lap; the 32-bit tag sample and the histories are seeded"
-    write_evidence(prop, tier, seed, level, cov, wall, len(violations), assumptions)
+    if extra_cov:
+        cov["thread_slice"] = extra_cov
+        cov["evaluations"] += extra_cov.get("evaluations", 0)
+        if extra_exit == 1:
+            exit_code = 1
+        elif extra_exit == 2 and exit_code == 0:
+            exit_code = 2
+    write_evidence(prop, tier, seed, level, cov, wall, len(violations) + len((extra_cov or {}).get("violation_classes", [])), assumptions)
     print("%s %s: %d simulated histories x universes, %d distinct non-trivial, %d ok, %d died, %d precondition_failed, %d violation class(es), %d known, %.1fs" %
           (prop, tier, evaluations, len(nontrivial), agg["verdicts"]["ok"], agg["verdicts"]["died"], sum(agg["precondition_failed"].values()), len(violations), len(known_hit), wall))
     return exit_code
